@@ -37,6 +37,11 @@ static std::string out;
 
 // ---- BitArrayT<CAP> ----
 template <unsigned CAP> static void dumpBits(const BitArrayT<CAP>& b) {
+	if (CAP > 5000) {      // large arrays: the non-zero storage units as unit:byte, recomputed from get()
+		out += " nz=";
+		for (unsigned u = 0; u * 8 < CAP; ++u) { unsigned v = 0; for (unsigned k = 0; k < 8 && u * 8 + k < CAP; ++k) if (b.get(u * 8 + k)) v |= 1u << k; if (v) out += std::to_string(u) + ":" + std::to_string(v) + ","; }
+		out += b.empty() ? " empty=1" : " empty=0"; return;
+	}
 	out += " bits="; for (unsigned i = 0; i < CAP; ++i) out += b.get(i) ? '1' : '0';
 	out += b.empty() ? " empty=1" : " empty=0";
 }
@@ -73,17 +78,40 @@ template <long CAP> static void runStatic(const std::vector<Op>& ops) {
 		dump(); out += "\n";
 	}
 }
+// an item whose move constructor really empties its source, and that counts what happens to it: a lost forward<>/move slip in
+// emplace or operator+= shows as a gutted element (-777) instead of going unnoticed as it does with int
+struct Tk {
+	int v = 0;
+	Tk() = default;
+	Tk(int v_) : v(v_) {}
+	Tk(const Tk& o) : v(o.v) {}
+	Tk(Tk&& o) noexcept : v(o.v) { o.v = -777; }
+	Tk& operator=(const Tk& o) { v = o.v; return *this; }
+	Tk& operator=(Tk&& o) noexcept { v = o.v; o.v = -777; return *this; }
+};
 template <long CAP> static void runDynamic(const std::vector<Op>& ops) {
-	DynamicArrayT<int, CAP> a;
-	auto dump = [&]() { out += " iter="; bool f = true; for (const int& x : a) { if (!f) out += ","; f = false; out += std::to_string(x); } out += " count=" + std::to_string(int(a.count())) + (a.empty() ? " empty=1" : " empty=0"); };
+	DynamicArrayT<Tk, CAP> a;
+	auto dump = [&]() {
+		out += " iter="; bool f = true; for (const Tk& x : a) { if (!f) out += ","; f = false; out += std::to_string(x.v); }
+		// the same through the mutable iterator, cbegin()/cend() and operator-> : all must agree
+		std::string viaMut, viaC; f = true; for (Tk& x : a) { if (!f) viaMut += ","; f = false; viaMut += std::to_string(x.v); }
+		f = true; { auto it = a.cbegin(); auto e = a.cend(); for (; it != e; ++it) { if (!f) viaC += ","; f = false; viaC += std::to_string(it->v); } }
+		std::string viaConst; f = true; for (const Tk& x : a) { if (!f) viaConst += ","; f = false; viaConst += std::to_string(x.v); }
+		if (viaMut != viaConst || viaC != viaConst) out += " ITERATORS-DISAGREE[" + viaMut + "|" + viaC + "]";
+		out += " count=" + std::to_string(int(a.count())) + (a.empty() ? " empty=1" : " empty=0"); };
 	out += "init"; dump(); out += "\n";
 	for (auto& o : ops) {
 		out += o.name; for (long x : o.args) out += " " + std::to_string(x);
 		if (o.name == "emp") out += " ->" + std::to_string(int(a.emplace(int(o.args[0]))));
-		else if (o.name == "add") a += int(o.args[0]);
-		else if (o.name == "get") out += " ->" + std::to_string(a[o.args[0]]);
+		else if (o.name == "add") a += Tk(int(o.args[0]));                                           // operator += (Item&&)
+		else if (o.name == "addc") { const Tk k(int(o.args[0])); a += k; }                            // operator += (const Item&)
+		else if (o.name == "emplv") { out += " ->" + std::to_string(int(a.emplace(a[o.args[0]]))); }  // emplace(non-const lvalue of the same array)
+		else if (o.name == "empc") { const DynamicArrayT<Tk, CAP>& ca = a; out += " ->" + std::to_string(int(a.emplace(ca[o.args[0]]))); }
+		else if (o.name == "addlv") { a += a[static_cast<unsigned char>(o.args[0])]; }                // operator += with an lvalue element, index of another integer type
+		else if (o.name == "get") { const DynamicArrayT<Tk, CAP>& ca = a; out += " ->" + std::to_string(a[o.args[0]].v) + (ca[static_cast<short>(o.args[0])].v == a[o.args[0]].v ? "" : " CONST-INDEX-DISAGREES"); }
 		else if (o.name == "clear") a.clear();
-		else if (o.name == "addall") { DynamicArrayT<int, CAP> other; for (long x : o.args) other.emplace(int(x)); a += other; }
+		else if (o.name == "addall") { DynamicArrayT<Tk, CAP> other; for (long x : o.args) other.emplace(int(x)); a += other; }
+		else if (o.name == "addall2") { DynamicArrayT<Tk, 7> other; for (long x : o.args) other.emplace(int(x)); a += other; }   // operator += <N> with another capacity
 		dump(); out += "\n";
 	}
 }
@@ -135,9 +163,10 @@ template <long BITS> struct StreamRun {
 		memset(&buffer, 0xEE, sizeof buffer);             // a write stream must clear whatever was there
 		for (auto& o : ops) {
 			out += o.name; for (long x : o.args) out += " " + std::to_string(x);
-			if (o.name == "ws") { w = new (wmem) BitWriteStreamT<BITS>{buffer}; out += " cursor=" + std::to_string(int(w->cursor())); }
+			if (o.name == "ws") { if (o.args.empty()) w = new (wmem) BitWriteStreamT<BITS>{buffer}; else w = new (wmem) BitWriteStreamT<BITS>{buffer, static_cast<Long>(o.args[0])}; out += " cursor=" + std::to_string(int(w->cursor())); }
 			else if (o.name == "w") { write(int(o.args[0]), static_cast<unsigned long>(o.args[1])); out += " cursor=" + std::to_string(int(w->cursor())); }
-			else if (o.name == "rs") { r = new (rmem) BitReadStreamT<BITS>{buffer}; out += " cursor=" + std::to_string(int(r->cursor())); }
+			else if (o.name == "rs") { if (o.args.empty()) r = new (rmem) BitReadStreamT<BITS>{buffer}; else r = new (rmem) BitReadStreamT<BITS>{buffer, static_cast<Long>(o.args[0])}; out += " cursor=" + std::to_string(int(r->cursor())); }
+			else if (o.name == "dirty") { memset(&buffer, int(o.args[0]), sizeof buffer); }
 			else if (o.name == "snap") { memcpy(&shadow, &buffer, sizeof buffer); }
 			else if (o.name == "eq") { out += std::string(" ->") + ((buffer == shadow) ? "1" : "0") + ((buffer != shadow) ? "1" : "0"); }
 			else if (o.name == "r") { unsigned long v = read(int(o.args[0])); out += " ->" + std::to_string(v) + " cursor=" + std::to_string(int(r->cursor())); }
@@ -147,6 +176,8 @@ template <long BITS> struct StreamRun {
 };
 
 #define CAPS(X) X(1) X(2) X(3) X(4) X(5) X(7) X(8) X(9) X(12) X(15) X(16) X(17) X(24) X(31) X(32) X(33) X(63) X(64) X(65) X(100) X(128) X(200) X(248) X(254) X(255)
+
+#define BIGCAPS(X) X(256) X(257) X(1000) X(2047) X(2048) X(2049) X(4096) X(5000) X(65535) X(65536) X(70001)
 
 int main() {
 	std::string line;
@@ -159,6 +190,7 @@ int main() {
 		if (kind == "bw") { for (auto& o : ops) out += "bw " + std::to_string(o.args[0]) + " ->" + std::to_string(bitWidth(static_cast<uint32_t>(o.args[0]))) + "\n"; }
 #define BA(C) else if (kind == "ba" && cap == C) runBitArray<C>(ops);
 		CAPS(BA)
+		BIGCAPS(BA)
 #define SA(C) else if (kind == "sa" && cap == C) runStatic<C>(ops);
 		CAPS(SA)
 #define DA(C) else if (kind == "da" && cap == C) runDynamic<C>(ops);
